@@ -173,6 +173,14 @@ pub fn run(a: &Args) {
     agree(&mut o, "degenerate", "ZV::A()", &st(ZV::SCHEMA), &ZV::A());
     agree(&mut o, "degenerate", "ZV::B(7)", &st(ZV::SCHEMA), &ZV::B(7));
     agree(&mut o, "degenerate", "ZV::C{}", &st(ZV::SCHEMA), &ZV::C {});
+    // sequences and maps longer than 65536 elements (the theorem covers them when no element has an
+    // empty encoding; too large for the model's case file: direct oracles only)
+    let long: Vec<u16> = (0..70000u32).map(|i| (i % 65536) as u16).collect();
+    agree(&mut o, "long", "Vec<u16> of 70000", &st(<Vec<u16>>::SCHEMA), &long);
+    let longp: Vec<(u8, bool)> = (0..66000u32).map(|i| (i as u8, i % 3 == 0)).collect();
+    agree(&mut o, "long", "Vec<(u8,bool)> of 66000", &st(<Vec<(u8, bool)>>::SCHEMA), &longp);
+    let longm: std::collections::BTreeMap<String, u8> = (0..66000u32).map(|i| (format!("k{:06}", i), i as u8)).collect();
+    agree(&mut o, "long", "BTreeMap<String,u8> of 66000", &st(<std::collections::BTreeMap<String, u8>>::SCHEMA), &longm);
     agree(&mut o, "degenerate", "((u8,),)", &st(<((u8,),)>::SCHEMA), &((9u8,),));
     // random shapes
     let n = if a.thorough { 40000 } else { 2500 };
